@@ -389,6 +389,150 @@ def job_value(db):
              span_str(fn.get('span')) if seen else None)]
 
 
+# ----------------------------------------------------------------------------- the byte-at-a-time loops of the scanners, one iteration at a time
+def allowed_at(s, pos):
+    """set of byte values the byte at position `pos` (a remaining-length term) may still have on path s; None if nothing is known about it"""
+    from ..poly import patom, pthaw, pis_const
+    fk = pfreeze(s.norm(pos))
+    same = [i_ for i_ in set(s.bounds) | set(s.subst)
+            if s.atoms.desc[i_][0] == 'byteat' and (s.atoms.desc[i_][1] == fk or pfreeze(s.norm(pthaw(s.atoms.desc[i_][1]))) == fk)]
+    if not same:
+        return None
+    allowed = set(range(256))
+    for a in same:
+        cv = pis_const(s.norm(patom(a)))
+        if cv is not None:
+            allowed &= {cv}
+            continue
+        lo, hi = s.bounds.get(a, (0, 255))
+        f = s.forms.get((((a,), 1),))
+        ex = set(f[2]) if f else set()
+        if f:
+            lo = max(lo, f[0]) if f[0] is not None else lo
+            hi = min(hi, f[1]) if f[1] is not None else hi
+        allowed &= set(v for v in range(max(lo, 0), min(hi, 255) + 1) if v not in ex)
+    return allowed
+
+
+class ScanHook:
+    """loop hook of the scanner helpers: one iteration from the generalised state must (a) consume exactly one byte (eight in the SWAR loop),
+    (b) have tested that byte to be in the scanner's class, (c) update the accumulator as fold(10 * old + digit).  By induction the consumed run
+    consists of class bytes and the accumulator is the fold over its digits; that the run is maximal is the exit test (checked by the job)."""
+
+    def __init__(self, name, flavour):
+        self.name, self.flavour = name, flavour
+        self.steps = set()
+
+    def on_generalise(self, I, st, fr, snap_old, snap_new, gen):
+        pass
+
+    def fail(self, st, msg):
+        st.ghost = dict(st.ghost, hook_msg=msg)
+        return False
+
+    def on_rearrival(self, I, st, fr, gen):
+        from ..poly import patom, pis_const
+        g_lit = gen['snap']['frames'][0][1].get(100)
+        c_lit = st.frames[0].L.get(100)
+        if not (isinstance(g_lit, Agg) and isinstance(c_lit, Agg)):
+            return self.fail(st, 'literal lost at the loop head')
+        gL, cL = g_lit.fields[0].len, c_lit.fields[0].len
+        step = pis_const(st.norm(padd(gL.p, cL.p, -1)))
+        if step == 8 and self.name == 'accum_coeff':
+            self.steps.add(8)
+            return True            # SWAR step: eight bytes at once (its digit test and conversion are contract A)
+        if step != 1:
+            return self.fail(st, 'one iteration consumes %s bytes, expected exactly one' % (step,))
+        al = allowed_at(st, gL.p)
+        cls = {48} if self.name == 'skip_leading_zeroes' else set(DIGITS)
+        if al is None or not al <= cls:
+            return self.fail(st, 'the consumed byte is not known to be %s' % ("'0'" if len(cls) == 1 else 'a digit'))
+        if self.name != 'skip_leading_zeroes':
+            g_acc = gen['snap']['frames'][0][1].get(101)
+            c_acc = st.frames[0].L.get(101)
+            if not (isinstance(g_acc, Int) and isinstance(c_acc, Int)):
+                return self.fail(st, 'accumulator lost at the loop head')
+            # digit = byte - 48 for the byte atom(s) of that position
+            fk = pfreeze(st.norm(gL.p))
+            batoms = [i_ for i_ in set(st.bounds) | set(st.subst) if st.atoms.desc[i_][0] == 'byteat' and st.atoms.desc[i_][1] == fk]
+            if not batoms:
+                return self.fail(st, 'byte atom of the consumed position not found')
+            digit = padd(patom(batoms[0]), pconst(48), -1)
+            want = padd(pscale(g_acc.p, 10), digit)
+            cur = st.norm(c_acc.p)
+            ok = False
+            if poly_eq(st, cur, want):
+                ok = True               # exact step (no overflow on this path)
+            elif self.name == 'accum_coeff' and self.flavour == 'saturating':
+                ok = pis_const(cur) == TWO128 - 1 and st.sign(padd(want, pconst(TWO128), -1)) <= (ZERO | POS)
+            elif self.name == 'accum_coeff' and self.flavour == 'wrapping':
+                ls = plinear_single_(cur)
+                mr = st.modrep.get(ls[0]) if ls else None
+                ok = mr is not None and mr[1] == TWO128 and poly_eq(st, dict(mr[0]), want)
+            elif self.name == 'accum_exp':
+                ok = poly_eq(st, cur, g_acc.p) and st.sign(padd(g_acc.p, pconst(0x1000000), -1)) <= (ZERO | POS)      # the guard `*exp < 0x1000000` failed: unchanged
+            if not ok:
+                return self.fail(st, 'accumulator after one step is %s, expected fold(10 * old + digit)' % st.atoms.pstr(cur)[:80])
+        self.steps.add(1)
+        return True
+
+
+def plinear_single_(p):
+    from ..poly import plinear_single
+    ls = plinear_single(p)
+    return ls if ls is not None and ls[1] == 1 and ls[2] == 0 else None
+
+
+def job_scan(db, name):
+    """the run part of contract A for the byte-at-a-time loops, proved: every iteration consumes one byte of the class and folds its digit;
+    on return the next byte (if any) is outside the class"""
+    fn = helper(db, name)
+    flavour = accum_flavour(db)
+    bad = []
+    opts = Opts(max_paths=20000)
+    opts.unroll_loops = False
+    opts.byte_positions = True
+    hook = ScanHook(name, flavour)
+    opts.loop_hooks = {fn['id']: hook}
+    I = Interp(db, opts)
+    st = I.new_state()
+    L0 = st.sym('len', 0, MAXLEN, 'usize')
+    lit = Agg(LIT, 0, (SliceVal(L0, 'bytes'),))
+    args = [ByRef(lit)]
+    if name == 'accum_coeff':
+        args.append(ByRef(st.sym('coeff', 0, 2**128 - 1, 'u128')))
+    elif name == 'accum_exp':
+        args.append(ByRef(K(0, 'isize')))
+    I.call_root(st, fn, args)
+    outs = I.explore(st)
+    nret = 0
+    cls = {48} if name == 'skip_leading_zeroes' else set(DIGITS)
+    for o in outs:
+        s = o.state
+        if o.kind != 'ret':
+            bad.append('%s%s' % (show_outcome(o)[:160], (' [' + s.ghost.get('hook_msg', '') + ']') if s.ghost.get('hook_msg') else ''))
+            continue
+        nret += 1
+        lit2 = s.frames[0].L.get(100)
+        L1 = lit2.fields[0].len
+        if s.sign(L1.p) == ZERO:
+            continue                     # end of input
+        al = allowed_at(s, L1.p)
+        if al is None or (al & cls):
+            if 0 in s.sign(L1.p) and al is None:
+                continue                 # the loop left because the input is exhausted on this path (len may be 0: no byte was read)
+            bad.append('on return the next byte may still be %s (the run is not known to be maximal)' % ("'0'" if len(cls) == 1 else 'a digit'))
+    if nret == 0:
+        bad.append('no returning path')
+    if 1 not in hook.steps:
+        bad.append('no single-byte iteration was checked')
+    seen = []
+    for b in bad:
+        if b not in seen:
+            seen.append(b)
+    return [('H-SCAN-STEP', name, not seen, '; '.join(seen[:3]) or 'paths=%d; iterations checked: %s' % (len(outs), sorted(hook.steps)), span_str(fn.get('span')) if seen else None)]
+
+
 # ----------------------------------------------------------------------------- grammar clause: which byte strings are accepted
 def abstract_string(s, L0):
     """the input string as far as path s knows it: tokens ('CH', byte) | ('zeros',) | ('digits',) | ('expdigits',) (runs of >= 1 digit bytes promised
@@ -597,6 +741,8 @@ def run_job(job):
     db = get_db()
     setup_thresholds(db)
     bad = []
+    if kind == 'scan':
+        return job_scan(db, name)
     if kind == 'value+grammar':
         return job_value(db) + job_grammar(db)
     if kind == 'helper':
@@ -664,8 +810,10 @@ def run(rep, tier):
     rep.tree_hash = db.tree_hash
     rep.configs = ['default']
     rep.level = 'other'
-    jobs = [('helper', 'skip_leading_zeroes'), ('helper', 'accum_coeff'), ('helper', 'accum_exp'), ('root', 'str_to_dec'), ('root', 'from_str'), ('value+grammar', None)]
-    run_jobs(rep, __name__, jobs, nproc=6, chunk=1)
+    jobs = [('helper', 'skip_leading_zeroes'), ('helper', 'accum_coeff'), ('helper', 'accum_exp'), ('root', 'str_to_dec'), ('root', 'from_str'), ('value+grammar', None),
+            ('scan', 'skip_leading_zeroes'), ('scan', 'accum_coeff'), ('scan', 'accum_exp')]
+    run_jobs(rep, __name__, jobs, nproc=9, chunk=1)
+    rep.floor('H-SCAN-STEP', 3)
     rep.floor('G-PARSE-GRAMMAR', 1)
     rep.floor('H-PARSER-HELPER', 3)
     rep.floor('R-NOPANIC', 2)
